@@ -194,3 +194,79 @@ pub fn decode_frames(bytes: &[u8], opts: Opts, tbits: u32, fill: u8) -> (String,
     }
     (end, v)
 }
+
+/// Structured variant of `reader_summary`.
+#[derive(Clone, Debug, PartialEq)]
+pub struct Summary {
+    pub ri: String,          // "ok" or the read_info error / panic
+    pub header: String,
+    pub frames: Vec<String>, // "ok ..." per delivered frame; the last entry is the first non-ok result
+    pub fin: String,
+    pub info: String,
+}
+
+impl Summary {
+    pub fn frame_ok(&self, k: usize) -> bool {
+        self.frames.get(k).map(|f| f.starts_with("ok")).unwrap_or(false)
+    }
+    pub fn any_panic(&self) -> bool {
+        self.ri.starts_with("PANIC") || self.frames.iter().any(|f| f.starts_with("PANIC")) || self.fin.starts_with("PANIC") || self.header.starts_with("PANIC")
+    }
+    /// a decoding error was reported somewhere (the end-of-image answer that terminates the frame loop is not one)
+    pub fn has_error(&self) -> bool {
+        self.ri != "ok" || self.frames.iter().any(|f| f.starts_with("err") && f != "err:Param:PolledAfterEndOfImage") || self.fin.starts_with("err")
+    }
+    pub fn text(&self) -> String {
+        format!("RI={} | {} | {} | FIN {} | INFO={}", self.ri, self.header, self.frames.join(" | "), self.fin, self.info)
+    }
+    /// everything except the metadata dump
+    pub fn pixels_text(&self) -> String {
+        format!("RI={} | {} | {} | FIN {}", self.ri, self.header, self.frames.join(" | "), self.fin)
+    }
+}
+
+pub fn summarize(bytes: &[u8], sched: &[usize], opts: Opts, tbits: u32) -> Summary {
+    let mut s = Summary { ri: "ok".into(), header: String::new(), frames: vec![], fin: "-".into(), info: "-".into() };
+    let mut rd = match open_reader(bytes, sched, opts, tbits, None) {
+        Err(m) => {
+            s.ri = format!("PANIC read_info: {}", m);
+            return s;
+        }
+        Ok(Err(e)) => {
+            s.ri = e;
+            return s;
+        }
+        Ok(Ok(r)) => r,
+    };
+    s.header = match guarded(|| header_str(&rd)) {
+        Ok(h) => h,
+        Err(m) => format!("PANIC header: {}", m),
+    };
+    for _ in 0..40 {
+        let (r, _) = do_next_frame(&mut rd, 0);
+        let ok = r.starts_with("ok");
+        s.frames.push(r);
+        if !ok {
+            break;
+        }
+    }
+    s.fin = match guarded(|| rd.finish()) {
+        Err(m) => format!("PANIC {}", m),
+        Ok(Err(e)) => res_err(&e),
+        Ok(Ok(())) => "ok".into(),
+    };
+    s.info = info_dump(rd.info());
+    s
+}
+
+/// value of one `|key=` field of an info dump
+pub fn info_field<'a>(dump: &'a str, key: &str) -> &'a str {
+    let pat = format!("|{}=", key);
+    match dump.find(&pat) {
+        Some(i) => {
+            let rest = &dump[i + pat.len()..];
+            if key == "text" { rest } else { &rest[..rest.find('|').unwrap_or(rest.len())] }
+        }
+        None => "?",
+    }
+}
